@@ -30,7 +30,7 @@ func ohitHooks(sr *sqlRoots, name string, hooks *absint.Hooks) {
 	env := sr.env
 	a := env.a
 	assign := a.Fn("sql.assign")
-	strClass, _ := env.p.ConstInt("sqliTokenTypeString")
+	strClass := int64(classString)
 	prevBefore, prevRet := hooks.BeforeCall, hooks.OnReturn
 	if !strings.HasPrefix(name, "lexer:") {
 		return
@@ -379,7 +379,7 @@ func checkC18(c *Ctx) *core.Result {
 	// every dispatch target that can emit a string token must have produced both the
 	// closed and the unclosed obligations (a lexer whose string path went unseen fails)
 	if assign := a.Fn("sql.assign"); assign != nil && env.disp != nil {
-		strClass, _ := p.ConstInt("sqliTokenTypeString")
+		strClass := int64(classString)
 		seen := map[*ssa.Function]bool{}
 		for _, tgt := range env.disp.Table {
 			if tgt == nil || seen[tgt] {
